@@ -1,11 +1,11 @@
 SPECIFICATION Spec
 CONSTANTS
-  K = 3
+  K = 1
   SrcEnds = {"eof", "err"}
   IniEnds = {"closesend", "cancel"}
-  Faults = {"unkMsg", "unkAck", "tgtSendFail", "srcSendFail", "openFail"}
+  Faults = {"unkMsg", "tgtSendFail", "srcSendFail"}
   Lifetime = TRUE
-  Post = TRUE
+  Post = FALSE
   Syncs = {TRUE, FALSE}
   SrcKinds = {"coop", "silent"}
   RaceHandoff = TRUE
@@ -14,7 +14,7 @@ CONSTANTS
   CloseSendOnExit = TRUE
   CancelOnReturn = TRUE
   FmsgWakesOnLatch = TRUE
-  NetCap = 0
+  NetCap = 1
   HandoffTimeout = FALSE
-INVARIANTS InOrder NoUnknownForwarded NoStuck EveryScriptEnds
+PROPERTIES EndTogether Complete
 CHECK_DEADLOCK FALSE
